@@ -12,5 +12,16 @@ if [ "$patch" != "-" ]; then (cd "$d/repo" && patch -p1 --no-backup-if-mismatch 
 cd "$d/verif"; set +e
 VERIF_REPO="$d/repo" ./check "$prop" --tier "$tier" > "$d/out.txt" 2>&1; rc=$?; grep -E "^(VIOLATION|KNOWN-FINDING|OK property)" "$d/out.txt" || true; tail -${TRIAL_TAIL:-8} "$d/out.txt"
 
-if ls evidence/replays/$prop-* >/dev/null 2>&1; then echo "--- replay file:"; head -c ${TRIAL_REPLAY_BYTES:-1500} evidence/replays/$prop-*.json; echo; fi
+if ls evidence/replays/$prop-* >/dev/null 2>&1; then echo "--- replay file:"; python3 - evidence/replays/$prop-*.json <<'PY'
+import json, sys
+for f in sys.argv[1:]:
+    d = json.load(open(f))
+    nl = d.get("no_longer_checks")
+    if nl and isinstance(nl[0], dict):
+        nl = [{"what": x["what"], "detail": x["detail"][-400:]} for x in nl]
+    print(json.dumps({"file": f.split("/")[-1], "stage": d.get("stage"), "case_index": d.get("case_index"), "tags": sorted(set(d.get("tags") or [])),
+                      "no_longer_checks": nl, "first_mismatch": (d.get("first_mismatch") or {}).get("tags"),
+                      "input": json.dumps(d.get("input"))[:int(__import__("os").environ.get("TRIAL_REPLAY_BYTES", "700"))]}))
+PY
+fi
 exit $rc
